@@ -4,6 +4,7 @@ import io
 import json
 import os
 import re
+import sys
 
 from pydiffx.errors import DiffXParseError
 from pydiffx.options import SpecVersion
@@ -176,6 +177,13 @@ class DiffXReader(object):
                     raise DiffXParseError(
                         'Expected section "%s" to have a length option'
                         % section_id,
+                        linenum=linenum)
+
+                if not isinstance(length, int) or length < 0:
+                    raise DiffXParseError(
+                        'Expected the length option for section "%s" to be '
+                        'a non-negative integer, not "%s"'
+                        % (section_id, length),
                         linenum=linenum)
 
                 if section_id in PREAMBLE_SECTIONS:
@@ -468,7 +476,15 @@ class DiffXReader(object):
                 validate.
         """
         fp = self._fp
-        content = fp.read(length)
+        content = fp.read(min(length, sys.maxsize))
+
+        if not content:
+            # There's no content at all, so there can't be a trailing
+            # newline either. Report this against the section's header, as
+            # there's no line of content to refer to.
+            raise DiffXParseError(
+                'Expected a newline after content',
+                linenum=self._linenum - 1)
 
         # First, determine the line endings that we're going to be working
         # with.
